@@ -1015,6 +1015,12 @@ func VerifyFunction(ld *Loader, db *ContractDB, fn *ssa.Function, con *Contract)
 
 	// exits
 	for _, ex := range f.exits {
+		if len(con.GhostUpd) > 0 {
+			saved := x.cur
+			x.cur = ex.st
+			x.runGhostUpdates(f, "exit", -1, true)
+			x.cur = saved
+		}
 		vars := x.paramVars()
 		x.bindResults(vars, ex.results)
 		eenv := x.newEnv(vars, ex.st, x.entry)
@@ -1212,8 +1218,14 @@ func (x *Exec) resolveModItem(m *Expr, env *Env, ms *modSet) {
 		case "every":
 			// every(T.f): the whole field heap; every(map[K]V): the whole map heap
 			a := m.Args[0]
+			tname := ""
 			if a.Kind == EField && a.Args[0].Kind == EIdent {
-				t := x.parseSpecType(a.Args[0].Name, env.fnPos)
+				tname = a.Args[0].Name
+			} else if a.Kind == EField && a.Args[0].Kind == EField && a.Args[0].Args[0].Kind == EIdent {
+				tname = a.Args[0].Args[0].Name + "." + a.Args[0].Name // pkg.Type.field
+			}
+			if tname != "" {
+				t := x.parseSpecType(tname, env.fnPos)
 				n, s := namedStruct(t.ty)
 				if s == nil {
 					sfail("modifies every(%s): not a struct type", a)
@@ -1758,6 +1770,17 @@ func (x *Exec) loopModifies(f *Frame, li *loopInfo) modInfo {
 		for _, ins := range b.Instrs {
 			x.instrModifies(f, ins, &mi, 0)
 			if f.top && x.con != nil {
+				if st, ok := ins.(*ssa.Store); ok {
+					if a, ok := st.Addr.(*ssa.Alloc); ok && a.Comment != "" {
+						for _, gu := range x.con.GhostUpd {
+							if gu.Callee == "set:"+a.Comment {
+								if g := x.ghostVar(gu.Name); g != nil {
+									mi.heaps[x.ghostHeap(gu.Name)] = x.parseSpecType(g.Type, token.NoPos).sort
+								}
+							}
+						}
+					}
+				}
 				if c, ok := ins.(*ssa.Call); ok {
 					name, k := x.staticCallOrdinal(f, c)
 					for _, gu := range x.con.GhostUpd {
